@@ -5,10 +5,10 @@
 
 enum SrcFamily {
   SRC_SILENCE = 0, SRC_DC, SRC_TONES, SRC_SWEEP, SRC_VOICED, SRC_NOISE, SRC_CLICKS, SRC_SQUARE,
-  SRC_STEREO, SRC_NONFINITE, SRC_DENORMAL, SRC_DITHER, SRC_MUSIC, SRC_STEADYVOICED, SRC_NFAM
+  SRC_STEREO, SRC_NONFINITE, SRC_DENORMAL, SRC_DITHER, SRC_MUSIC, SRC_STEADYVOICED, SRC_ANTIPHASE, SRC_NFAM
 };
 static const char *const kSrcName[] = {"silence", "dc", "tones", "sweep", "voiced", "noise", "clicks", "square",
-                                       "stereo", "nonfinite", "denormal", "dither", "music", "steadyvoiced"};
+                                       "stereo", "nonfinite", "denormal", "dither", "music", "steadyvoiced", "antiphase"};
 
 struct Source {
   int fam = SRC_SILENCE;
@@ -94,6 +94,13 @@ static inline float src_sample(const Source &s, int fs, int ch, int64_t n) {
       for (int h = 1; h <= 12; h++) v += sin(h * ph + 0.3 * h * h) / h;
       v += 0.05 * noise_at(s.seed, n, ch);
       return (float)(A * v / 2.5);
+    }
+    case SRC_ANTIPHASE: {
+      // the steady speech-like source with the right channel in exact anti-phase (R = -L): the mid channel of a stereo coder is silent
+      double pitch = f0 * (1.0 + 0.05 * sin(TWO_PI * 3.0 * t));
+      double ph = TWO_PI * pitch * t, v = 0;
+      for (int h = 1; h <= 12; h++) v += sin(h * ph + 0.3 * h * h) / h;
+      return (float)((ch & 1 ? -1.0 : 1.0) * A * v / 2.5);
     }
     case SRC_MUSIC: {
       // chord with slow amplitude modulation + a little noise: keeps the music detector busy
